@@ -40,6 +40,7 @@ def main(prop, mk):
             other2 = [l for l in out2.splitlines() if (l.startswith("FAIL") or l.startswith("--- FAIL")) and "examples" not in l and "TestCache" not in l and l.strip() != "FAIL"]
             res["suite_passes_with_change_retry"] = not other2
         dst = os.path.join(wt, pkg.lstrip("./"), "zz_seed_demo_test.go")
+        os.makedirs(os.path.dirname(dst), exist_ok=True)
         shutil.copy(src + "/demo_test.go", dst)
         rc, out = sh("go test %s-count=1 -run '%s' %s" % (race, rx, pkg), wt, 900)
         res["demo_fails_with_change"] = rc != 0 and "FAIL" in out
